@@ -375,3 +375,27 @@ def one_local(fn, template, what, binds=None):
     if len(names) != 1:
         raise AnalysisError(f"anchor vanished: {what} (a local assigned `{template}`; found {names})")
     return names[0]
+
+
+def closure_functions(model, mod, cls, fn, depth=1):
+    """[(mod, cls, FunctionDef)] : fn, the functions nested in it, and the package functions it calls (to the given depth) -
+    where an anchor may live after part of ``fn`` was extracted into a helper"""
+    out = [(mod, cls, fn)]
+    seen = {id(fn)}
+    frontier = [(mod, cls, fn, depth)]
+    while frontier:
+        m, c, f, d = frontier.pop()
+        if d <= 0:
+            continue
+        for call in (x for x in ast.walk(f) if isinstance(x, ast.Call)):
+            t = callee(model, m, c, call)
+            if t is None and isinstance(call.func, ast.Name):
+                # a function nested in f or defined at module level of m is resolved by callee(); nested defs by name:
+                for n in ast.walk(f):
+                    if isinstance(n, ast.FunctionDef) and n.name == call.func.id and n is not f:
+                        t = (m, c, n)
+            if t is not None and id(t[2]) not in seen:
+                seen.add(id(t[2]))
+                out.append(t)
+                frontier.append((t[0], t[1], t[2], d - 1))
+    return out
